@@ -105,6 +105,21 @@ PROPS = {
                  "TLS handshake and socket shutdown in run()", "bodies longer than the framing bound"],
         assumptions=["a socket's recv(n) returns between 1 and n bytes, or b'' once the peer has closed"],
     ),
+    "C17": dict(
+        modules=["harness.c17"],
+        level="other",
+        explanation="Bounded symbolic execution of the real KmipSession._handle_message_loop, authenticate, the auth "
+                    "helper functions and the SLUGS connector with a real engine behind the session. Certificate shape, "
+                    "TLS-auth flag, number and text of common names, URL presence and the outcomes of both SLUGS calls "
+                    "per block are symbolic; block kinds and enabled flags are sliced per condition. Oracle: reference "
+                    "predicate from the statement; engine entered iff identity established, with exactly that identity.",
+        stubs=["FakeConnection", "FakeCert (duck-typed certificate)", "DER loader -> FakeCert",
+               "requests.get -> scripted outcomes per block and endpoint", "FakeSession", "NullLogger",
+               "binascii.hexlify -> b''"],
+        outside=["TLS handshake and certificate chain validation (OpenSSL)", "more than 3 plugin blocks",
+                 "HTTP status codes other than 200/404", "common names longer than 2 characters"],
+        assumptions=["cryptography's x509 objects behave as the two accessors the auth helpers use"],
+    ),
     "C15": dict(
         modules=["harness.c15"],
         level="other",
@@ -162,6 +177,15 @@ PROPS = {
 }
 
 CLAIMS = {
+    "C17": dict(
+        text="For every certificate shape (absent; EKU absent / without / with clientAuth; 0-2 common names of any "
+             "text), either value of the TLS-auth flag, and every plugin configuration in the sliced menu (no block, "
+             "SLUGS blocks enabled / disabled / flag absent / wrongly spelt, unsupported block names; 1-2 blocks, 3 in "
+             "thorough) with every outcome of the two SLUGS calls, the real session reaches the real engine exactly "
+             "when the reference predicate of the statement establishes an identity, hands over exactly that identity "
+             "and group list, and otherwise answers authentication-not-successful with the store untouched.",
+        note="Certificate objects, the DER loader and requests.get are stubs; the engine runs over the stub store.",
+    ),
     "C12": dict(
         text="For every chunking of the stream (4 arbitrary chunk sizes) and every body up to the bound the framed "
              "request is exactly header + advertised bytes with nothing over-consumed; for every combination of "
